@@ -339,6 +339,27 @@ let sdisc_main () =
        Printf.printf "%d %d %s | %s\n" (if wt e then 1 else 0) (z_int (need e)) fin (Buffer.contents b))
   done with End_of_file -> ())
 
+(* switch: stdin lines "<w> <v> <default label | -> <b:e:label>*" (cases in chibicc's test order, raw source values); prints the label reached, 0 = past the switch (C03) *)
+let switch_main () =
+  let z_of_string s =
+    let neg = String.length s > 0 && s.[0] = '-' in
+    let body = if neg then String.sub s 1 (String.length s - 1) else s in
+    (match n_of_string body with N0 -> Z0 | Npos p -> if neg then Zneg p else Zpos p) in
+  let rec nat_of i = if i = 0 then O else S (nat_of (i - 1)) in
+  let rec nat_int = function O -> 0 | S m -> 1 + nat_int m in
+  (try while true do
+    let line = input_line stdin in
+    (match List.filter (fun x -> x <> "") (String.split_on_char ' ' (String.trim line)) with
+     | w :: v :: d :: cs ->
+       let wz = z_of_string w in
+       let cases = List.map (fun c -> match String.split_on_char ':' c with
+         | [b; e; l] -> { c_begin = stored wz (z_of_string b); c_end = stored wz (z_of_string e); c_label = nat_of (int_of_string l) }
+         | _ -> failwith "case") cs in
+       let dflt = if d = "-" then None else Some (nat_of (int_of_string d)) in
+       print_endline (string_of_int (nat_int (dispatch wz (z_of_string v) cases dflt O)))
+     | _ -> print_endline "?")
+  done with End_of_file -> ())
+
 (* cond: stdin lines of items I1 I0 E1 E0 L N T<k>; prints the selected payloads or ERR (C10) *)
 let cond_main () =
   (try while true do
@@ -430,6 +451,7 @@ let () =
   | [_; "lines"; f] -> lines_main f
   | [_; "macro"; f] -> macro_main f
   | [_; "cond"] -> cond_main ()
+  | [_; "switch"] -> switch_main ()
   | [_; "sdisc"] -> sdisc_main ()
   | [_; "inc"] -> inc_main ()
   | [_; "fusing"] -> fusing_main ()
